@@ -41,7 +41,11 @@ def run(ctx, R, tier):
     from ..report import Rules as _Rules
     from . import c12 as _c12
     R12 = _Rules("C12")
-    _c12.run(ctx, R12, tier)
+    try:
+        _c12.run(ctx, R12, tier)
+    except AnalysisError as _shared_x:
+        # the other property's own anchors are gone on this tree: its check reports that; what it produced before is still shared
+        R.note("obligations shared from C12 are incomplete on this tree: %s" % _shared_x)
     shared = [o for o in R12.obs if o.key == "C12-R2|handleRequest|client"]
     if not shared:
         R.note("the C12-R2 instance for the context field `client` was not produced on this tree (C12 reports why); nothing shared")
